@@ -141,20 +141,39 @@ def payload_buffer(F, fn):
     if buf is None or not tir.in_macro(buf["init"], "vec"):
         out["problems"].append("read_exact target is not a `vec![0; n]` local")
         return out
-    size_ids = [x.get("id") for x in tir.walk(buf["init"]) if x.get("k") == "Path" and x.get("res") == "local"]
-    if len(size_ids) != 1 or size_ids[0] not in lets:
-        out["problems"].append("buffer length is not a single let-bound local")
+    # everything the buffer length is computed from, following immutable lets and Some(..)/Ok(..) payload bindings
+    env = tir.LetEnv(root)
+    seen = set()
+    cone = [x for x in tir.walk(buf["init"]) if x.get("k") in ("MethodCall", "Index") or (x.get("k") == "Call" and not tir.in_macro(x, "vec"))]
+    work = [x for x in tir.walk(buf["init"]) if x.get("k") == "Path" and x.get("res") == "local"]
+    while work and len(seen) < 40:
+        x = work.pop()
+        if x.get("id") in seen:
+            continue
+        seen.add(x.get("id"))
+        r = env.resolve(x, peel=True)
+        if r is strip(x):
+            continue
+        for y in tir.walk(r):
+            cone.append(y)
+            if y.get("k") == "Path" and y.get("res") == "local":
+                work.append(y)
+    if not work and not seen:
+        out["problems"].append("buffer length is not computed from let-bound values")
         return out
-    size = lets[size_ids[0]]
-    idx = [x for x in tir.walk(size["init"]) if x.get("k") == "Index"]
-    calls = [(x.get("resolved") or x.get("path") or "") for x in tir.walk(size["init"]) if x.get("k") in ("Call", "MethodCall")]
+    idx = [x for x in cone if x.get("k") == "Index"]
+    idx = [x for i, x in enumerate(idx) if not any(x is y for y in idx[:i])]
+    calls = [(x.get("resolved") or x.get("path") or "") for x in cone if x.get("k") in ("Call", "MethodCall")]
     if any(c.endswith("::size") or "size_of" in c for c in calls):
         out["problems"].append("buffer length depends on a size() function")
     if len(idx) != 1:
         out["problems"].append("buffer length is not one lookup in the payload-size table")
         return out
     out["table"] = place(idx[0]["base"])
-    code = lets.get(local_id(idx[0]["index"]))
+    ix = strip(idx[0]["index"])
+    while ix.get("k") == "Cast" or (ix.get("k") == "Call" and (ix.get("path") or "").endswith("From::from") and len(ix["args"]) == 1):
+        ix = strip(ix["e"] if ix.get("k") == "Cast" else ix["args"][0])
+    code = lets.get(ix.get("id")) if ix.get("k") == "Path" else None
     if code is None:
         out["problems"].append("table index is not a let-bound local")
         return out
